@@ -425,7 +425,34 @@ def r5(ctx):
     calls.sort(key=lambda c: (c.lineno, c.col_offset))
     ctor = [c for c in walk_no_nested(f) if isinstance(c, ast.Call) and dotted(c.func) == 'FastqRecord']
     ok = len(calls) == 4 and len(ctor) == 1 and len(ctor[0].args) == 4 and all(any(x is c for x in walk_no_nested(a)) for a, c in zip(ctor[0].args, calls))
-    ctx.emit('C01-R5', ok, FQITER, f, f'_readFastqRecord: {len(calls)} readline() calls feeding the {len(ctor[0].args) if ctor else 0} FastqRecord fields positionally', key='four-readlines')
+    detail = f'_readFastqRecord: {len(calls)} readline() calls feeding the {len(ctor[0].args) if ctor else 0} FastqRecord fields positionally'
+    wit = None
+    if not ok:
+        # written another way (a comprehension over range(4), keyword construction ...): the method is run on a model handle that hands out numbered lines
+        try:
+            from ..consteval import module_scope, Evaluator, Instance
+            env = module_scope(ctx.ix, FQITER)
+            lines = ['@L1 \n', 'L2\n', 'L3\n', 'L4\n', '@M1\n', 'M2\n', 'M3\n', 'M4\n']
+            state = {'k': 0}
+
+            def hook(ev, call, env_):
+                if isinstance(call.func, ast.Attribute) and call.func.attr == 'readline' and src(call.func.value) == h:
+                    state['k'] += 1
+                    return lines[state['k'] - 1] if state['k'] <= len(lines) else ''
+                return NotImplemented
+            it = Instance(env['FastqIterator'], attrs={})
+            e = dict(env)
+            e['it'] = it
+            e[h] = '<handle>'
+            recs = [Evaluator(e, budget=5000, call_hook=hook).ev(ast.parse(f'it._readFastqRecord({h})', mode='eval').body, e) for _ in range(2)]
+            got = [tuple(getattr(r_, k_, None) if not hasattr(r_, 'attrs') else r_.attrs.get(k_) for k_ in ('header', 'sequence', 'plus', 'qual')) for r_ in recs]
+            want = [('@L1', 'L2', 'L3', 'L4'), ('@M1', 'M2', 'M3', 'M4')]
+            ok = got == want and state['k'] == 8
+            detail = f'_readFastqRecord interpreted on a model handle: two calls consume {state["k"]} lines and give {got}' + ('' if ok else f', expected {want} from 8 lines')
+            wit = None if ok else {'lines of the handle': lines, 'records': got, 'lines consumed': state['k']}
+        except Exception as e_:
+            detail += f' (and the method is outside the interpreted subset: {type(e_).__name__}: {str(e_)[:60]})'
+    ctx.emit('C01-R5', ok, FQITER, f, detail, key='four-readlines', witness=wit)
     m = ctx.ix.module(FQITER)
     nt = [s for s in ast.walk(m.tree) if isinstance(s, ast.Assign) and src(s.targets[0]) == 'FastqRecord']
     okf = len(nt) == 1 and "'header sequence plus qual'" in src(nt[0].value)
